@@ -17,7 +17,8 @@ EXPLANATION = (
     "which the status guard fails (only a write-back of the unmodified copy is allowed); set_time writes only the clock.")
 
 ALLOWED = {
-    "place_order": {("New", "Active"), ("New", "Filled"), ("New", "Cancelled"), ("New", "Rejected")},
+    # (Active -> Filled: resting orders filled by the arriving one; the whole-operation view keeps them until the call returns)
+    "place_order": {("New", "Active"), ("New", "Filled"), ("New", "Cancelled"), ("New", "Rejected"), ("Active", "Filled")},
     "cancel_order": {("Active", "Cancelled")},
     "modify_order": {("Active", "Filled")},
 }
@@ -44,13 +45,17 @@ def make_is_clock(m):
     return is_clock
 
 
+def operation_view(m, f):
+    return m.ov(f)
+
+
 def run_typestate(ctx, m):
     ts = TypeState(m)
     ts.is_clock = make_is_clock(m)
     roots = {}
     for name in ("place_order", "cancel_order", "modify_order"):
         f = m.book_fn(name)
-        roots[name] = ts.analyse(f, {})
+        roots[name] = ts.analyse(f, {}, q=operation_view(m, f))
     loaders = [f for f in ctx.prog.units() if f.name == "try_from" and "OrderBook" in (f.impl_self or "")
                and f.crate.name == "bourse_book"]
     for f in loaders:
@@ -79,11 +84,11 @@ def run(ctx):
         ctx.check(any(s.new == new for s in sw), "state-machine", "reaches|" + new, "-", "some API path sets status %s" % new,
                   "no reachable write of status %s (anchor lost)" % new)
     # every status write in the crate was visited by the typestate analysis (no writer outside the API call graph)
-    visited = {(s.fn.path, s.b) for s in sw}
+    visited = {s.src for s in sw}
     for f in m.lib_fns("bourse_book"):
         q = m.q(f)
         for w in q.writes(field="status", owner="Order"):
-            ctx.check((f.path, w.b) in visited, "state-machine", "unvisited-writer|" + f.short(), w.loc(),
+            ctx.check((w.sp.get("file"), w.sp.get("line")) in visited, "state-machine", "unvisited-writer|" + f.short(), w.loc(),
                       "status writer is reachable from the analysed API roots", "status written in a function the lifecycle analysis never reaches: " + w.text())
     # entry -> exit relation of each API call
     for api, res in roots.items():
@@ -99,8 +104,9 @@ def run(ctx):
                   "%s: observable status transitions within {%s} + identity" % (api, ", ".join("%s->%s" % ab for ab in sorted(ALLOWED[api]))),
                   "%s may take an order %s" % (api, ", ".join("%s->%s" % (a, b) for a, b, _k in bad)))
         if api == "place_order":
-            lim = {(a, b) for (a, b, kd) in rel if kd == "limit" and a != b}
-            mkt = {(a, b) for (a, b, kd) in rel if kd == "market" and a != b}
+            # (the order being placed is the one acquired as New; passive orders met on the way are judged by `transitions`)
+            lim = {(a, b) for (a, b, kd) in rel if kd == "limit" and a != b and a == "New"}
+            mkt = {(a, b) for (a, b, kd) in rel if kd == "market" and a != b and a == "New"}
             ctx.check(lim <= {("New", "Active"), ("New", "Filled")}, "transitions", "limit-arrival", ctx.loc(f),
                       "a limit order leaves place_order Active or Filled: %s" % sorted(lim),
                       "a limit order may leave place_order as %s" % sorted(lim - {("New", "Active"), ("New", "Filled")}))
@@ -159,7 +165,7 @@ def run(ctx):
         q = m.q(f)
         for w in q.writes(field="end_time", owner="Order") + q.writes(field="arr_time", owner="Order"):
             n_end += 1
-            ctx.check((f.path, w.b, w.i) in ts.time_writes, "end-time", "unvisited-writer|" + f.short(), w.loc(),
+            ctx.check((w.sp.get("file"), w.sp.get("line"), w.field) in ts.time_writes, "end-time", "unvisited-writer|" + f.short(), w.loc(),
                       "%s writer is reachable from the analysed API roots" % w.field, "%s written in a function the lifecycle analysis never reaches: %s" % (w.field, w.text()))
     ctx.check(n_end >= 2, "end-time", "write-census", "-", "%d end_time/arr_time write sites, all visited" % n_end)
 
